@@ -286,7 +286,16 @@ EntsOf(h) ==
     [] h \in {"ack", "ackasync"} -> {[NoEnt EXCEPT !.s = s, !.e = e] : s \in StreamRefs, e \in EpochRefs}
     [] h = "propagate" -> {x \in [op : PartOps, s : {"absent", "present"}, p : PartRefs, r : {"unknown"}, e : {"zero", "current"}] :
                              /\ InRange(x) => x.op \in {"shrink", "expand"}
-                             /\ ~InRange(x) => x.e = "zero"} \cup {NoEnt}      \* NoEnt: the empty request
+                             /\ ~InRange(x) => x.e = "zero"}
+                          \cup {NoEnt}                                        \* NoEnt: the empty request
+                          \* an entity that exists created again, one that does not exist deleted
+                          \cup {[NoEnt EXCEPT !.op = "create", !.s = "present"], [NoEnt EXCEPT !.op = "delete"]}
+                          \* consumer-group operations: s = the stream a joining consumer names / the group a leaving or
+                          \* reporting consumer names (absent, present); r = the consumer (a member, unknown, empty id);
+                          \* e = the coordinator epoch a report names
+                          \cup {[NoEnt EXCEPT !.op = o, !.s = s, !.r = r] : o \in {"joingroup", "leavegroup"}, s \in {"absent", "present"}, r \in ReplicaRefs}
+                          \cup {[NoEnt EXCEPT !.op = "reportcoord", !.s = s, !.r = r, !.e = e] :
+                                   s \in {"absent", "present"}, r \in ReplicaRefs, e \in {"zero", "current", "max"}}
     [] OTHER -> {NoEnt}          \* join: only the receiver's own id (anything else legitimately changes the cluster)
 
 \* the lookup a handler makes succeeds
